@@ -429,6 +429,7 @@ func runC05(w *World, r *Report, tier string) {
 			r.Check(badW == "", "R5", w.funcKey(f)+"#inner-error", w.ipos(ic), "the wrapped Read's outcome does not reach the caller: "+badW+" — a closed or lost connection is never noticed by the receive loop", "inner Read on every successful path; its error returned")
 		}
 	}
+	readWrappersForwardCount(w, r, "R5")
 	if nRead < 3 {
 		r.Undecided("R5", "module#Read-methods", "-", fmt.Sprintf("%d Read methods found, 3 confirmed by hand", nRead))
 	}
@@ -617,4 +618,86 @@ func c05WebsocketReader(w *World, r *Report) {
 	if n == 0 {
 		r.Undecided("R8", "xmpp.WebsocketTransport.startReader#frame-read", w.pos(sr.Pos()), "no frame-level read found in the reader goroutine")
 	}
+}
+
+// readWrappersForwardCount: a Read method that wraps another Read on its own buffer hands on the count of that inner Read whenever it
+// hands on its outcome (its error, or success): io.Reader allows n > 0 together with an error, and the last bytes of a stream
+// typically arrive that way (shared by C05.R5 and C02.R6).
+func readWrappersForwardCount(w *World, r *Report, rule string) int {
+	n := 0
+	for _, f := range w.LibFuncs() {
+		if f.Name() != "Read" || f.Signature.Recv() == nil || f.Signature.Params().Len() != 1 || f.Signature.Results().Len() != 2 || len(f.Blocks) == 0 {
+			continue
+		}
+		if sl, ok := f.Signature.Params().At(0).Type().Underlying().(*types.Slice); !ok || !types.Identical(sl.Elem(), types.Typ[types.Byte]) {
+			continue
+		}
+		p := f.Params[1]
+		var inner []*ssa.Call
+		allInstrsH(f, func(in ssa.Instruction) {
+			if c, ok := in.(*ssa.Call); ok && c.Call.IsInvoke() && c.Call.Method.Name() == "Read" && len(c.Call.Args) == 1 && c.Call.Args[0] == ssa.Value(p) {
+				inner = append(inner, c)
+			}
+		})
+		if len(inner) != 1 {
+			continue
+		}
+		ic := inner[0]
+		if ic.Parent() != f {
+			n++
+			r.Ok(rule, w.funcKey(f)+"#inner-count", "the wrapped Read is called in a helper: its outcome is followed by #inner-error only; count clause not decided for this shape")
+			continue
+		}
+		var nv, ev ssa.Value
+		for _, rf := range *ic.Referrers() {
+			if ex, ok := rf.(*ssa.Extract); ok {
+				if ex.Index == 0 {
+					nv = ex
+				} else {
+					ev = ex
+				}
+			}
+		}
+		n++
+		bad := ""
+		nPaths := 0
+		walkPaths(after(ic), nil, nil, 20000, func(path []ssa.Instruction, end pathEnd) {
+			ret, ok := path[len(path)-1].(*ssa.Return)
+			if !ok || bad != "" {
+				return
+			}
+			res := rres(path, ret)
+			if len(res) != 2 {
+				return
+			}
+			handsOn := ev != nil && (res[1] == ev || isNilConst(res[1]))
+			if !handsOn {
+				return // another failure is reported
+			}
+			nPaths++
+			if nv != nil && res[0] == nv {
+				return
+			}
+			// a smaller count is harmless only where the inner count is known to be zero
+			zero := nv != nil && pathAsserts(path, func(c ssa.Value, truth bool) bool {
+				b, ok := c.(*ssa.BinOp)
+				if !ok {
+					return false
+				}
+				isZ := func(v ssa.Value) bool { k, ok := intConst(v); return ok && k == 0 }
+				switch {
+				case b.X == nv && isZ(b.Y):
+					return (b.Op == token.EQL && truth) || (b.Op == token.GTR && !truth) || (b.Op == token.NEQ && !truth) || (b.Op == token.LEQ && truth)
+				case b.Y == nv && isZ(b.X):
+					return (b.Op == token.EQL && truth) || (b.Op == token.LSS && !truth) || (b.Op == token.NEQ && !truth) || (b.Op == token.GEQ && truth)
+				}
+				return false
+			})
+			if !zero {
+				bad = "on a path from the wrapped Read to the return at " + w.ipos(ret) + " the count handed on is " + w.nf(res[0], 0) + ", not the count of the wrapped Read: bytes that arrive together with an error (the usual way a stream ends) or in that read are dropped, so the last element is lost or the next one is cut"
+			}
+		})
+		r.Check(bad == "" && nPaths > 0, rule, w.funcKey(f)+"#inner-count", w.ipos(ic), bad, fmt.Sprintf("%d path(s) hand on the wrapped Read's count together with its outcome", nPaths))
+	}
+	return n
 }
